@@ -138,3 +138,31 @@ Proof.
   destruct (rkind_ a) eqn:Ea, (rkind_ b) eqn:Eb; try reflexivity;
     (destruct Hk as [H1 H2]; try (specialize (H1 eq_refl); discriminate); try (specialize (H2 eq_refl); discriminate)).
 Qed.
+
+(* strings.Fields / strings.ToLower / s[2:] are Model/ImportTag.v's fields / to_lower / drop2 *)
+From Mage Require Model.ImportTag.
+Lemma Fields_ImportTag : forall s, strings_Fields s = ImportTag.fields s.
+Proof.
+  unfold strings_Fields, ImportTag.fields. intros s. generalize EmptyString as cur.
+  induction s as [|c r IH]; intros cur; simpl; [destruct cur; reflexivity|].
+  change (ImportTag.is_space c) with (is_space_byte c). destruct (is_space_byte c); rewrite ?IH; destruct cur; reflexivity.
+Qed.
+Lemma ToLower_ImportTag : forall s, strings_ToLower s = ImportTag.to_lower s.
+Proof. induction s as [|c s IH]; simpl; [reflexivity|]. rewrite IH. reflexivity. Qed.
+Lemma sdrop2_ImportTag : forall s, 2 <= String.length s -> sdrop 2 s = ImportTag.drop2 s.
+Proof. intros [|a [|b r]] H; simpl in *; try lia; reflexivity. Qed.
+Lemma sdrop2_drop2 : forall s, sdrop 2 s = ImportTag.drop2 s.
+Proof. intros [|a [|b r]]; reflexivity. Qed.
+Lemma nth_last : forall (l : list string), nth (length l - 1) l "" = last l "".
+Proof.
+  induction l as [|a l IH]; [reflexivity|]. destruct l as [|b r]; [reflexivity|].
+  simpl length in *. replace (S (S (length r)) - 1) with (S (length r)) by lia.
+  replace (S (length r) - 1) with (length r) in IH by lia.
+  change (nth (S (length r)) (a :: b :: r) "") with (nth (length r) (b :: r) "").
+  change (last (a :: b :: r) "") with (last (b :: r) ""). exact IH.
+Qed.
+Lemma index_last : forall (l : list string), l <> [] -> index_ "" l (len_ l - 1) = last l "".
+Proof.
+  intros l H. unfold len_. replace (Z.of_nat (length l) - 1)%Z with (Z.of_nat (length l - 1)) by (destruct l; [congruence|simpl length; lia]).
+  rewrite index_nat. apply nth_last.
+Qed.
